@@ -18,7 +18,10 @@ VERIF = os.path.dirname(os.path.dirname(os.path.abspath(__file__)))
 CRATE = os.path.join(VERIF, "kani")
 REPLAY_CRATE = os.path.join(VERIF, "replay")
 CACHE = os.environ.get("IPC_VERIF_CACHE", "/root/.cache/ipc-verif")
-KFLAGS = ["-Z", "c-ffi", "-Z", "stubbing", "-Z", "unstable-options"]
+# --no-assertion-reach-checks: Kani's reachability checks are asserts expected to fail, and CBMC's JSON output
+# carries a full trace for every failing property (1.6 GB / +100 s for a round-trip harness); vacuity is
+# witnessed by our own WITNESS: checks instead
+KFLAGS = ["-Z", "c-ffi", "-Z", "stubbing", "-Z", "unstable-options", "--no-assertion-reach-checks"]
 
 # members of the error-value drop-glue cycle (io::Error -> Custom -> Box<dyn Error> -> UnixError /
 # bincode::ErrorKind -> io::Error ...).  Capped at recursion depth 1; CBMC's recursion unwinding
@@ -120,15 +123,27 @@ class seed_flock:
         self.f.close()
 
 
-def run_harness(harness, features, loops=None, timeout=900, mem_gb=14, playback=False, keep=False, tag=""):
+# loops of the model kernel have constant trip counts (its table sizes); they get exactly that
+# bound whatever global unwind value a harness uses
+KQ_LOOPS = {r"^kq::(settle|settle_pass|munmap|copy_out)$": 10, r"^kq::exit_process$": 42,
+            r"^kq::(enqueue|recvmsg|recv|ep_notify|epoll_ctl|epoll_wait|ep_any_undelivered|ep_rescan_hangups)$": 6}
+KQ_LOOPS_BIGFD = {r"^kq::(settle|settle_pass)$": 142, r"^kq::(munmap|copy_out)$": 10, r"^kq::exit_process$": 232,
+                  r"^kq::(enqueue|recvmsg|recv)$": 72, r"^kq::(ep_notify|epoll_ctl|epoll_wait|ep_any_undelivered|ep_rescan_hangups)$": 6}
+KREC_LOOPS = {r"^krec::sendmsg$": 8}
+FS_ARRAY = int(os.environ.get("IPC_VERIF_FS_ARRAY", "320"))
+
+
+def run_harness(harness, features, loops=None, timeout=900, mem_gb=14, playback=False, keep=False, tag="", optional_witnesses=()):
     """returns dict(verdict, failed=[...], covers={...}, stats={...}, log=path)"""
-    loops = loops or {}
+    base_loops = dict(KQ_LOOPS_BIGFD if "bigfd" in features else KQ_LOOPS if "k_q" in features else KREC_LOOPS)
+    base_loops.update(loops or {})
+    loops = base_loops
     tdir = os.path.join(CACHE, "kt", f"{harness}{tag}.{os.getpid()}")
     logdir = os.path.join(CACHE, "logs")
     os.makedirs(logdir, exist_ok=True)
     log = os.path.join(logdir, harness + tag + (".pb" if playback else "") + ".log")
     res = dict(harness=harness, features=features, verdict="INCONCLUSIVE", failed=[], covers={}, stats={}, log=log,
-               reason="", unwinding_failures=[])
+               reason="", unwinding_failures=[], optional_witnesses=list(optional_witnesses))
     t0 = time.time()
     sdir, rc, out = seed_target(features, harness)
     if rc != 0:
@@ -179,8 +194,12 @@ def _run(harness, features, loops, timeout, mem_gb, playback, tdir, log, res, t0
     cmd = list(base)
     if playback:
         cmd += ["-Z", "concrete-playback", "--concrete-playback=print"]
+    # The receiver's control buffer is a 272-byte malloc'd object; CBMC's default keeps arrays of
+    # more than 64 elements out of field-sensitive constant propagation, which would turn every
+    # received descriptor number (and from there the whole model state) symbolic.
+    cmd += ["--cbmc-args", "--max-field-sensitivity-array-size", str(FS_ARRAY)]
     if us:
-        cmd += ["--cbmc-args", "--unwindset", ",".join(us)]
+        cmd += ["--unwindset", ",".join(us)]
     t1 = time.time()
 
     def limit():
@@ -297,6 +316,7 @@ def parse_log(log, res):
         st["sat_clauses"] = int(m.group(2))
     failed = []
     covers = {}
+    witnesses = {}
     nchecks = 0
     nfail_or_ok = {"SUCCESS": 0, "FAILURE": 0, "UNREACHABLE": 0, "UNDETERMINED": 0}
     for blk in re.finditer(r"Check \d+: ([^\n]+)\n\s+- Status: (\w+)\n\s+- Description: \"(.*?)\"\n\s+- Location: ([^\n]*)", txt, re.S):
@@ -305,12 +325,20 @@ def parse_log(log, res):
         if ".cover." in name:
             covers[desc] = status
             continue
+        m = re.search(r"WITNESS:([A-Z0-9_]+)", desc)
+        if m:
+            # reachable (FAILURE) wins if the same witness was instantiated more than once
+            w = m.group(1)
+            if witnesses.get(w) != "FAILURE":
+                witnesses[w] = status
+            continue
         nfail_or_ok[status] = nfail_or_ok.get(status, 0) + 1
         if status == "FAILURE":
-            failed.append(dict(check=name, desc=desc, loc=loc.strip()))
+            failed.append(dict(check=name, desc=desc.strip('"'), loc=loc.strip()))
     st["checks"] = nchecks
     st["checks_by_status"] = nfail_or_ok
     res["covers"] = covers
+    res["witnesses"] = witnesses
     unwinding = [f for f in failed if "unwinding assertion" in f["desc"] or "recursion" in f["desc"].lower()]
     real = [f for f in failed if f not in unwinding]
     res["failed"] = real
@@ -323,21 +351,28 @@ def parse_log(log, res):
     if unwinding:
         res["reason"] = "unwinding assertion: " + "; ".join(sorted(set(f["loc"] for f in unwinding)))[:600]
         return
-    if verdict.group(1) == "SUCCESSFUL":
-        if covers.get("REACH_END") != "SATISFIED":
-            res["reason"] = "vacuous: end of harness not reachable (cover REACH_END = %s)" % covers.get("REACH_END")
-            return
-        res["verdict"] = "PASS"
-        return
     if real:
         res["verdict"] = "FAIL"
-        pb = re.search(r"let concrete_vals: Vec<Vec<u8>> = vec!\[(.*?)\n    \];", txt, re.S)
-        if pb:
-            vals = []
-            for v in re.findall(r"^\s*vec!\[([^\]]*)\],?\s*$", pb.group(1), re.M):
-                vals.append([int(x) for x in v.replace(" ", "").split(",") if x != ""])
-            res["playback_values"] = vals
         return
+    # no real failure: the run counts only if CBMC really decided every check (a solver error or
+    # out-of-memory run also prints FAILED, with no failed check) and the witnesses are reachable
+    summary = re.search(r"\*\* (\d+) of (\d+) failed", txt)
+    nwit_failed = sum(1 for v in witnesses.values() if v == "FAILURE")
+    if nfail_or_ok.get("UNDETERMINED", 0) or not summary or nchecks == 0:
+        res["reason"] = "FAILED without failed checks (solver error / out of memory)"
+        return
+    if verdict.group(1) != "SUCCESSFUL" and nwit_failed == 0:
+        res["reason"] = "FAILED without failed checks (solver error / out of memory)"
+        return
+    missing = [w for w, v in witnesses.items() if v != "FAILURE" and w not in res.get("optional_witnesses", [])]
+    if witnesses.get("REACH_END") != "FAILURE" and covers.get("REACH_END") != "SATISFIED":
+        res["reason"] = "vacuous: end of harness not reachable"
+        return
+    if missing:
+        res["reason"] = "vacuous: witness not reachable: " + ",".join(sorted(missing))
+        return
+    res["verdict"] = "PASS"
+    return
     res["reason"] = "FAILED without failed checks (solver error / out of memory)"
 
 
